@@ -358,3 +358,74 @@ def histories(tier, rng, rep):
                         return
         rep.attempt("history_runs", {"class": cls, "shape": list(shape), "history": hist, "seed_round": t}, body)
         rep.case(key=(t,), nontrivial=nontrivial, sample={"class": cls, "shape": list(shape), "history": list(hist)} if t < 2 else None)
+
+
+@bounded(P, "integer_typed_objects", functions=[HY + "Point.coords", HY + "Point.hyperboloid_coords", HY + "Point.distance", HY + "Point.origin_to", "geometry_tools/utils/core.py:normalize"],
+         note="objects whose homogeneous coordinates are stored with an integer dtype (lattice points): read-only queries neither move them nor leave derived data stale")
+def integer_typed_objects(tier, rng, rep):
+    rep.rule = ("random int64 timelike lattice vectors (|coordinates| <= 6), n = 2, 3; Point (shapes (), (3,)), Segment, Polygon, TangentVector; after construct / copy / index / reshape every "
+                "read-only query (coordinates in five models, distance to / from another point, origin_to, unit tangent, circle parameters) is followed by: same projective points as the "
+                "integer input, derived data projectively equal to that of a float64 twin")
+    N = 60 if tier == 'thorough' else 15
+    rep.bound = f"{N} rounds x 4 classes"
+
+    def tl(shape, n):
+        while True:
+            sp = rng.integers(-4, 5, size=shape + (n,))
+            x = np.concatenate([np.sum(np.abs(sp), axis=-1, keepdims=True) + rng.integers(1, 3, size=shape + (1,)), sp], axis=-1).astype(np.int64)
+            if shape == () or len({tuple(r) for r in x.reshape(-1, n + 1)}) == int(np.prod(shape)):
+                return x
+
+    def same_rows(a, b):
+        a, b = np.asarray(a, dtype=float), np.asarray(b, dtype=float)
+        if a.shape != b.shape or not np.all(np.isfinite(a)):
+            return False
+        m = a[..., :, None] * b[..., None, :]
+        nz = np.all(np.any(a != 0, axis=-1))
+        return bool(nz and np.all(np.abs(m - np.swapaxes(m, -1, -2)) <= 1e-7 * max(1.0, np.max(np.abs(m)))))
+
+    queries = {
+        "coords_klein": lambda o, q: o.coords("klein"), "coords_poincare": lambda o, q: o.coords("poincare"), "coords_halfspace": lambda o, q: o.coords("halfspace"),
+        "coords_hyperboloid": lambda o, q: o.coords("hyperboloid"), "coords_projective": lambda o, q: o.coords("projective"),
+        "distance_to": lambda o, q: h.Point(o).distance(q) if o.proj_data.ndim == q.proj_data.ndim else None,
+        "distance_from": lambda o, q: q.distance(h.Point(o)) if o.proj_data.ndim == q.proj_data.ndim else None,
+    }
+    for t in range(N):
+        n = 2 if t % 3 else 3
+        for cls in ("Point", "PointComposite", "Segment", "HypPolygon", "TangentVector"):
+            shape = {"Point": (), "PointComposite": (3,), "Segment": (2,), "HypPolygon": (4,), "TangentVector": ()}[cls]
+            x = tl(shape, n)
+            mk = {"Point": h.Point, "PointComposite": h.Point, "Segment": h.Segment, "HypPolygon": h.Polygon}.get(cls)
+            inp = {"class": cls, "n": n, "integer_coordinates": x.tolist()}
+
+            def body():
+                if cls == "TangentVector":
+                    vv = rng.integers(-3, 4, size=(n + 1,)).astype(np.int64)
+                    if not np.any(vv[1:]):
+                        vv[1] = 1
+                    build = lambda dt: h.TangentVector(h.Point(x.astype(dt)), vv.astype(dt))
+                else:
+                    build = lambda dt: mk(h.Point(x.astype(dt))) if cls in ("Segment", "HypPolygon") else h.Point(x.astype(dt))
+                q = h.Point(tl((), n).astype(float))
+                for qname, f in queries.items():
+                    for hist in ("construct", "copy", "reshape"):
+                        o = build(np.int64)
+                        twin = build(float)
+                        if hist == "copy":
+                            o = type(o)(o)
+                        elif hist == "reshape" and o.shape != ():
+                            o = o.reshape(o.shape + (1,)).flatten_to_unit() if hasattr(o, "flatten_to_unit") else o
+                        p_before = np.array(o.proj_data, dtype=float, copy=True)
+                        try:
+                            f(o, q)
+                        except Exception as e:
+                            if qname.startswith("distance") or isinstance(o, h.TangentVector):
+                                continue          # not a query of this class / shape
+                            rep.fail("query_runs", f"{qname} after {hist}: {type(e).__name__}: {e}", {**inp, "query": qname}); return
+                        if not same_rows(o.proj_data, p_before):
+                            rep.fail("query_does_not_move_the_object", f"{qname} after {hist}: {np.asarray(o.proj_data).tolist()} was {p_before.tolist()}", {**inp, "query": qname, "history": hist}); return
+                        if o.aux_data is not None and twin.aux_data is not None and np.shape(o.aux_data) == np.shape(twin.aux_data):
+                            if not same_rows(o.aux_data, twin.aux_data):
+                                rep.fail("derived_data_coherent", f"{qname} after {hist}", {**inp, "query": qname, "history": hist}); return
+            rep.attempt("integer_object_runs", inp, body)
+            rep.case(key=(t, cls), nontrivial=True, sample=inp if t == 0 and cls == "Segment" else None)
